@@ -160,6 +160,25 @@ def fam_hrv_all(seed, tier):
                                                                   "handler_cases_run": len(take), "handler_domain_exhaustive": len(take) == len(cases)}
 
 
+def fam_healstates_all(seed, tier):
+    """C15 from TLC-enumerated durable cluster states (divergent tails, stale / far-ahead terms, one voter down)"""
+    cases = load_domain("healstates")
+    rng = random.Random(sseed(seed, "hs", 0))
+    idx = list(range(len(cases)))
+    rng.shuffle(idx)
+    take = idx[:700] if tier == "quick" else idx
+    scs = []
+    for k in take:
+        c = cases[k]
+        sc = {"name": "hs-%d" % k, "family": "healstate", "voters": ["a", "b", "c"], "controlled": False, "auto": True, "heal": True, "heal_et": 60,
+              "prep": {n: {"term": c[n]["term"], "ents": c[n]["ents"]} for n in ("a", "b", "c")}, "stimuli": []}
+        if c["down"] != "none":
+            sc["no_start"] = [c["down"]]
+            sc["heal_keep_down"] = [c["down"]]
+        scs.append(sc)
+    return scs, {"heal_state_domain_size": len(cases), "heal_states_run": len(take)}
+
+
 def fam_hae_all(seed, tier):
     cases = load_domain("hae-K2T2")
     rng = random.Random(sseed(seed, "hae", 0))
@@ -440,7 +459,7 @@ PROPS = {
     "C11": dict(fams=[("snap", 6)], corpus=["snap"], mc="MC_snap3", gen=[("Gen_snap3", ["a", "b", "c"], 45)], snaprace=True),
     "C12": dict(storage=True),
     "C13": dict(storage=True),
-    "C15": dict(fams=[("core", 2), ("crash", 2), ("snap", 2), ("member5", 2)], corpus=["core", "crash", "snap", "member"], mc="MC_core3"),
+    "C15": dict(fams=[("core", 2), ("crash", 2), ("snap", 2), ("member5", 2)], corpus=["core", "crash", "snap", "member"], mc="MC_core3", healstates=True),
     "C16": dict(fams=[("healthy", 6)], corpus=["healthy"], mc=None),
     "C17": dict(fams=[("lease", 6)], corpus=["lease"], mc=None),
     "C18": dict(fams=[("core", 1)], corpus=["api"], api=True, mc=None),
@@ -467,6 +486,10 @@ def gen_scenarios(prop, tier, seed, workdir):
         EXTRA_COV.update(extra)
     if spec.get("hae"):
         a, extra = fam_hae_all(seed, tier)
+        scs += a
+        EXTRA_COV.update(extra)
+    if spec.get("healstates"):
+        a, extra = fam_healstates_all(seed, tier)
         scs += a
         EXTRA_COV.update(extra)
     if spec.get("snaprace"):
